@@ -311,3 +311,9 @@ func nonNil(s []string) []string {
 	}
 	return s
 }
+
+func debugf(format string, args ...any) {
+	if os.Getenv("VERIF_DEBUG") != "" {
+		fmt.Fprintf(os.Stderr, "debug: "+format+"\n", args...)
+	}
+}
